@@ -63,7 +63,7 @@ func c12LevelsCase(r *rand.Rand, i int) (*lib.ProfileDoc, *lib.Graph) {
 // message and a non-empty trace with component and path.
 func c12(tier string) {
 	ctx := lib.NewCtx("C12", tier)
-	ctx.Rule = "reports produced by the real pipeline for (a) random formula families with quantifier depth<=3 (sub-results inside sub-results), (b) profiles firing >=11 results on each of the three levels at once with several traces per result and nested depth 3, (c) random path probes over cyclic graphs, (d) data decorated with lexical source maps (location nodes on results, traces and sub-results); every report is walked once by a structural checker that knows the input graph's ids and the profile's validation names; reports are also re-read after later validations in the same process; " +
+	ctx.Rule = "reports produced by the real pipeline for (a) random formula families with quantifier depth<=3 (sub-results inside sub-results), (b) profiles firing >=11 results on each of the three levels at once with several traces per result and nested depth 3, (c) random path probes over cyclic graphs, (d) chains of 4-9 nested constraints failing at the innermost level (typed nodes more than 16 levels deep), (e) data decorated with lexical source maps (location nodes on results, traces and sub-results); every report is walked once by a structural checker that knows the input graph's ids and the profile's validation names; reports are also re-read after later validations in the same process; " +
 		"non-trivial & distinct = report with at least one result carrying sub-results or several traces"
 	ctx.Assumptions = []string{"declarative profiles only (embedded Rego may set trace nodes and messages freely)", "messages written in the profile are non-empty"}
 	n := ctx.N(260, 4000)
@@ -82,8 +82,27 @@ func c12(tier string) {
 		r := lib.CaseRand(ctx.Seed, 12, i)
 		var prof *lib.ProfileDoc
 		var g *lib.Graph
-		kind := (i/16 + i) % 4 // varies inside every worker (workers take i = k mod 16)
+		kind := (i/16 + i) % 5 // varies inside every worker (workers take i = k mod 16)
 		switch kind {
+		case 4:
+			// a chain of 4..9 nested constraints failing at the innermost level: typed nodes 3 levels per nesting
+			depth := 4 + r.Intn(6)
+			g = lib.NewGraph()
+			prev := g.AddNode(lib.EX+"chain0", lib.EX+"T")
+			for d := 1; d <= depth; d++ {
+				for w := 0; w < 1+r.Intn(2); w++ {
+					n := g.AddNode(fmt.Sprintf("%schain%d_%d", lib.EX, d, w), lib.EX+"C")
+					prev.Add(lib.EX+"next", lib.RefV(n.ID))
+				}
+				prev = g.Node(fmt.Sprintf("%schain%d_0", lib.EX, d))
+			}
+			var body lib.Expr = lib.PC1("ex.nothing", lib.CScalar("minCount", lib.Int(1)))
+			for d := 0; d < depth; d++ {
+				body = lib.PC1("ex.next", lib.CNested(body))
+			}
+			prof = &lib.ProfileDoc{Name: fmt.Sprintf("c12-chain-%d", i), Prefixes: [][2]string{{"ex", lib.EX}}, Violation: []string{"chain"},
+				Validations: []lib.Validation{{Name: "chain", TargetClass: "ex.T", Message: "deep chain", Body: body}}}
+			ctx.Mark("chain_depths", fmt.Sprint(depth))
 		case 0:
 			prof, g = c12LevelsCase(r, i)
 		case 1, 3:
@@ -221,7 +240,7 @@ func c12(tier string) {
 			}
 		}
 		if i < 4 {
-			ctx.Sample(map[string]any{"kind": []string{"three levels, >=11 results", "formula family", "path probes", "formula family + source maps"}[kind], "results": len(rep.Results), "typed_nodes": typed, "max_typed_depth": depth})
+			ctx.Sample(map[string]any{"kind": []string{"three levels, >=11 results", "formula family", "path probes", "formula family + source maps", "chain of nested constraints"}[kind], "results": len(rep.Results), "typed_nodes": typed, "max_typed_depth": depth})
 		}
 	})
 	ctx.Count("sum_over_workers_of_max_typed_nodes_in_one_report", maxTyped)
